@@ -777,6 +777,50 @@ def rule_r6(prog, res):
     res.floor('R6', 'transport classes examined', k, 3)
 
 
+# ------------------------------------------------------------------- R7
+def rule_r7(prog, res):
+    res.rule('R7', 'the verdict on a request is taken from values of that '
+             'request: the schema validator\'s return value, not the error '
+             'log of the shared schema object; decoders are per request '
+             '(C02-R12); caches are keyed by the class itself (C15-R9)')
+    x = prog.cls('spyne.protocol.xml:XmlDocument')
+    cands = [m for k, m in x.methods.items() if k.endswith('validate_lxml')]
+    if not cands:
+        raise AnalysisError('XmlDocument.__validate_lxml', 'not found')
+    f = cands[0]
+    raises = [r for r in walk_no_defs(f.node) if isinstance(r, ast.Raise)]
+    res.floor('R7', 'rejections in __validate_lxml', len(raises), 1)
+    results = {a.targets[0].id for a in walk_no_defs(f.node)
+               if isinstance(a, ast.Assign) and len(a.targets) == 1 and
+               isinstance(a.targets[0], ast.Name) and isinstance(
+                   a.value, ast.Call) and call_name(a.value) == 'validate'}
+    for r in raises:
+        atoms = guardspec.atoms_at(r, f.node)
+        shared = [t for t, _ in atoms if 'self.' in t]
+        local = [t for t, _ in atoms if any(
+            nm in [y.id for y in ast.walk(ast.parse(t, mode='eval'))
+                   if isinstance(y, ast.Name)] for nm in results)]
+        ok = bool(local) and not shared
+        where = '%s:%d' % (f.module.relpath, r.lineno)
+        res.ob('R7', where, '%s rejects under %s' % (f.qualname, [
+            t for t, _ in atoms]), 'ok' if ok else 'VIOLATED')
+        if not ok:
+            res.finding('R7', 'XmlDocument.__validate_lxml|shared-verdict',
+                        where, 'the request is rejected according to %s, '
+                        'state of the schema object all request threads '
+                        'share (lxml clears and refills its error log on '
+                        'every validate()): a valid request is answered with '
+                        'another caller\'s SchemaValidationError, or an '
+                        'invalid one passes, depending on the interleaving' %
+                        (shared or 'no value of this call'))
+    from . import c02, c15
+    from ..report import Result
+    res.share('R7', 'decoders are per request (C02-R12)', 'C02',
+              c02.rule_r12, prog, Result)
+    res.share('R7', 'caches are keyed by the class itself (C15-R9)', 'C15',
+              c15.rule_r9, prog, Result)
+
+
 def run(prog, res, tier):
     res.run_rule(rule_r1, prog, res)
     res.run_rule(rule_r2, prog, res, tier)
@@ -784,6 +828,7 @@ def run(prog, res, tier):
     res.run_rule(rule_r4, prog, res)
     res.run_rule(rule_r5, prog, res)
     res.run_rule(rule_r6, prog, res)
+    res.run_rule(rule_r7, prog, res)
 
 
 _W = 'spyne/server/wsgi.py'
@@ -792,6 +837,11 @@ _P = 'spyne/protocol/_base.py'
 _M = 'spyne/util/memo.py'
 
 MUTANTS = [
+    Mutant('verdict-from-shared-error-log', 'R7', 'fire',
+           'spyne/protocol/xml.py',
+           in_func('XmlDocument.__validate_lxml', "if ret == False:",
+                   "if self.validation_schema.error_log.last_error is not "
+                   "None:"), 'shared-verdict'),
     Mutant('build-lock-with-timeout', 'R6', 'fire', _W,
            in_func('WsgiApplication.handle_wsdl_request',
                    "self._mtx_build_interface_document.acquire()",
